@@ -7,7 +7,7 @@ import sympy as sp
 
 from ..model import AnalysisError, Package, norm_stmt
 from ..report import Run
-from ..vg import Event, Interp, Term, C, NONE, show, walk, subst, is_const, kw, interp, init_attrs, expand_self
+from ..vg import Event, Interp, Term, C, NONE, show, walk, subst, is_const, kw, interp, init_attrs, expand_self, mkbin, canon, split_acc
 from .. import sym as S
 
 
@@ -104,8 +104,61 @@ def check_algebra(run: Run, rule: str, it: Interp, key: str, what: str, got: Ter
                       f"code {sp.sstr(g)[:160]}", loc=loc)
     if ok is False:
         return run.ob(rule, short(it.fi.qual), key, False, what,
-                      f"code computes {sp.sstr(g)[:300]}; reference {sp.sstr(ref)[:300]}", witness=how, loc=loc)
+                      f"code computes {sp.sstr(g)[:300]}; reference {sp.sstr(ref)[:300]}", witness=how, loc=loc, sound=True)
     return run.ob(rule, short(it.fi.qual), key, None, what, f"code {sp.sstr(g)[:200]} vs reference {sp.sstr(ref)[:200]}: {how}", loc=loc)
+
+
+def eq_terms(a: Term, b: Term):
+    """(True | False | None, how): value-graph terms compared through the exact normaliser.  False only with a sound reason:
+    the two sides are built from the same uninterpreted constructs and differ arithmetically, or every construct that occurs on
+    one side only is the same accessor/reduction as one on the other side at a definitely different index / axis / constant."""
+    from ..vg import strip_alloc
+    a, b = strip_alloc(a), strip_alloc(b)
+    if a == b:
+        return True, "identical terms"
+    try:
+        tr = S.Translator()
+        x, y = tr.tr(a), tr.tr(b)
+        return S.decide_equal(x, y)
+    except Exception as e:  # noqa
+        return None, f"not comparable: {type(e).__name__}"
+
+
+def eqv(got: Optional[Term], *wants: Term) -> Optional[bool]:
+    """Tri-state equality of a term with any of the accepted forms: True (identical or provably equal), False (definitely a
+    different quantity than every accepted form), None (a form the rule cannot decide - never a violation)."""
+    if got is None:
+        return None
+    got = canon(got)
+    res = []
+    for w in wants:
+        w = canon(w)
+        if got == w:
+            return True
+    for w in wants:
+        ok, _ = eq_terms(got, canon(w))
+        if ok:
+            return True
+        res.append(ok)
+    if res and all(r is False for r in res):
+        return False
+    return None
+
+
+def tri(*vals) -> Optional[bool]:
+    """three-valued conjunction"""
+    if any(v is False for v in vals):
+        return False
+    if all(v is True for v in vals):
+        return True
+    return None
+
+
+def why_not(got: Optional[Term], want: Term) -> str:
+    if got is None:
+        return "missing"
+    ok, how = eq_terms(canon(got), canon(want))
+    return how
 
 
 def enum_members(pkg: Package, clsqual: str) -> List[str]:
